@@ -333,6 +333,16 @@ pub fn run(report: &Report) {
     explore_ans::<U16U64>(report, &empty, &small_alphabet::<U16U64>(), if q { 4 } else { 5 }, "mixed-precision-14");
     explore_ans::<U32U64>(report, &empty, &small_alphabet::<U32U64>(), if q { 4 } else { 6 }, "mixed-precision-14");
     explore_ans::<U64U128>(report, &empty, &small_alphabet::<U64U128>(), if q { 4 } else { 5 }, "mixed-precision-14");
+    // a user-written model may give a symbol the whole interval (probability 2^PRECISION < 2^ProbabilityBits, zero bits of
+    // information): textbook rANS leaves the state alone and flushes nothing
+    {
+        let mut certain = small_alphabet::<U8U32>();
+        certain.truncate(7);
+        certain.extend([Letter::new(1, 0, 2), Letter::new(2, 0, 4), Letter::new(3, 0, 8)]);
+        explore_ans::<U8U32>(report, &empty, &certain, if q { 5 } else { 6 }, "mixed precision + symbols of probability one");
+        explore_ans::<U16U64>(report, &empty, &certain, if q { 4 } else { 5 }, "mixed precision + symbols of probability one");
+        explore_ans::<U32U64>(report, &empty, &certain, if q { 4 } else { 5 }, "mixed precision + symbols of probability one");
+    }
     explore_range::<U8U16>(report, &range_alphabet12::<U8U16>(), if q { 6 } else { 7 }, "a12@P8");
     explore_range::<U8U32>(report, &range_alphabet12::<U8U32>(), if q { 6 } else { 7 }, "a12@P8");
     explore_range::<U8U32>(report, &range_alphabet5::<U8U32>(), if q { 9 } else { 10 }, "a5@P8 (reaches seals needing >1 zero word)");
